@@ -425,6 +425,7 @@ type c16Diff struct {
 	Sc   vfE1      `json:"sc"`
 	TSN2 [2]uint32 `json:"tsn2"`
 	SeqB uint32    `json:"seqb"` // SSN/MID cursor preset for run 2 (0 = none)
+	PR   bool      `json:"pr,omitempty"`
 }
 
 func genC16Diff(rt *rapid.T) c16Diff {
@@ -436,9 +437,25 @@ func genC16Diff(rt *rapid.T) c16Diff {
 	if rapid.Bool().Draw(rt, "presetseq") {
 		x.SeqB = uint32(0) - uint32(rapid.IntRange(1, 6).Draw(rt, "seqd"))
 	}
-	// unordered streams too
-	for i := range x.Sc.Acts {
-		_ = i
+	// some streams unordered / partially reliable (configured by the sender before its first write)
+	if rapid.Bool().Draw(rt, "pr") {
+		seen := map[[2]int]bool{}
+		var cfg []vfAct
+		for _, a := range x.Sc.Acts {
+			k := [2]int{a.Side, a.SID}
+			if a.Kind != "write" || seen[k] {
+				continue
+			}
+			seen[k] = true
+			switch rapid.IntRange(0, 3).Draw(rt, "rel") {
+			case 0:
+				cfg = append(cfg, vfAct{AtMs: 0, Side: a.Side, Kind: "setrel", SID: a.SID, Unord: rapid.Bool().Draw(rt, "unord"), RelT: 1, RelV: rapid.SampledFrom([]int{0, 0, 1, 2}).Draw(rt, "n")})
+			case 1:
+				cfg = append(cfg, vfAct{AtMs: 0, Side: a.Side, Kind: "setrel", SID: a.SID, Unord: rapid.Bool().Draw(rt, "unord"), RelT: 2, RelV: rapid.SampledFrom([]int{0, 50, 1500}).Draw(rt, "l")})
+			}
+		}
+		x.PR = len(cfg) > 0
+		x.Sc.Acts = append(cfg, x.Sc.Acts...)
 	}
 	return x
 }
@@ -470,7 +487,15 @@ func c16Norm(s *vfSim, init [2]uint32, seqBase uint32) []string {
 				}
 				line += fmt.Sprintf(" SACK(%d arwnd=%d gaps=%v dups=%s)", r32(ch.Cum, peer), ch.ARwnd, ch.Gaps, d)
 			case wtFWD, wtIFWD:
-				line += fmt.Sprintf(" FWD(%d %v)", r32(ch.NewCum, me), ch.FwdStrs)
+				fs := ""
+				for _, f := range ch.FwdStrs {
+					if ch.Type == wtFWD {
+						fs += fmt.Sprintf("[sid=%d ssn=%d]", f.SID, uint16(f.SSN-uint16(seqBase)))
+					} else {
+						fs += fmt.Sprintf("[sid=%d mid=%d u=%v]", f.SID, f.MID-seqBase, f.Unordered)
+					}
+				}
+				line += fmt.Sprintf(" FWD(%d %s)", r32(ch.NewCum, me), fs)
 			case wtSHUTDOWN:
 				line += fmt.Sprintf(" SHUTDOWN(%d)", r32(ch.Cum, peer))
 			case wtINIT, wtINITACK:
@@ -504,32 +529,27 @@ func runC16Diff(t *testing.T, x c16Diff, verbose bool) vfCase {
 		var r res
 		r.out = vfRunE1(t, &sc, vfE1Opts{
 			verbose: verbose,
-			done:    vfAllDelivered,
-			bound:   func(*vfSim) time.Duration { return vfDrainBound(&sc) },
+			done: func(s *vfSim) bool {
+				if !x.PR {
+					return vfAllDelivered(s)
+				}
+				// abandoned messages are never read: wait for the senders to be empty
+				s.mu.Lock()
+				for _, w := range s.writes {
+					if !w.Done {
+						s.mu.Unlock()
+						return false
+					}
+				}
+				s.mu.Unlock()
+				return s.as[0].BufferedAmount() == 0 && s.as[1].BufferedAmount() == 0
+			},
+			bound: func(*vfSim) time.Duration { return vfDrainBound(&sc) },
 			setup: func(s *vfSim) {
 				if seqBase == 0 {
 					return
 				}
-				// pre-advance SSN/MID cursors on every stream the scenario uses, both sides
-				seen := map[[2]int]bool{}
-				for _, a := range sc.Acts {
-					k := [2]int{a.Side, a.SID}
-					if a.Kind != "write" || seen[k] {
-						continue
-					}
-					seen[k] = true
-					hs, err := s.stream(a.Side, uint16(a.SID), PayloadTypeWebRTCBinary)
-					hr, err2 := s.stream(1-a.Side, uint16(a.SID), PayloadTypeWebRTCBinary)
-					if err != nil || err2 != nil {
-						continue
-					}
-					hs.s.lock.Lock()
-					hs.s.sequenceNumber, hs.s.nextOrderedMID, hs.s.nextUnorderedMID = uint16(seqBase), seqBase, seqBase
-					hs.s.lock.Unlock()
-					hr.s.lock.Lock()
-					hr.s.reassemblyQueue.nextSSN, hr.s.reassemblyQueue.nextMID = uint16(seqBase), seqBase
-					hr.s.lock.Unlock()
-				}
+				vfPresetSeq(s, sc.Acts, seqBase)
 			},
 			eval: func(s *vfSim, out *vfE1Out) {
 				r.tr = c16Norm(s, tsn, seqBase)
@@ -645,6 +665,9 @@ func runC16Diff(t *testing.T, x c16Diff, verbose bool) vfCase {
 	}
 	if x.SeqB != 0 {
 		c.class("ssn-mid-preset-near-wrap")
+	}
+	if x.PR {
+		c.class("partially-reliable-streams")
 	}
 	if r1.out.NFaults > 0 {
 		c.class("with-faults")
